@@ -8,7 +8,7 @@ cases: a break is CAUGHT when it produces at least one of its expected key prefi
 The two ``fix_*`` entries emulate the proposed patches of the defects found on the unchanged tree: the corresponding keys must
 disappear.
 
-Usage: /venv/bin/python tools/selftest_c18_c19_c24.py [C18|C19|C24] [break ...]     (runs ~35 pipelines, 16 in parallel)
+Usage: /venv/bin/python tools/selftest_c18_c19_c24.py [C18|C19|C24] [break ...]     (runs ~70 pipelines, 8 workers in parallel)
 """
 
 from __future__ import annotations
@@ -26,7 +26,8 @@ VERIF = Path(__file__).resolve().parent.parent
 sys.path.insert(0, str(VERIF))
 
 CASES = {
-    "C18": [dict(sut="tri", seed=0, ag="SIMPLE", no_xfail=True), dict(sut="floats", seed=0, ag="SIMPLE"), dict(sut="safefloats", seed=0, ag="SIMPLE")],
+    "C18": [dict(sut="tri", seed=0, ag="SIMPLE", no_xfail=True), dict(sut="floats", seed=0, ag="SIMPLE"), dict(sut="safefloats", seed=0, ag="SIMPLE"),
+            dict(sut="queue_", seed=86109, ag="SIMPLE", no_xfail=True, direction="FORWARD"), dict(sut="account", seed=0, ag="SIMPLE")],
     "C19": [dict(sut="lastcall", seed=0, ag="SIMPLE"), dict(sut="queue_", seed=0, ag="SIMPLE", no_xfail=True),
             dict(sut="lastcall", seed=0, ag="SIMPLE", post_process=False)],
     "C24": [dict(sut="queue_", seed=0, ag="SIMPLE", no_xfail=True), dict(sut="floats", seed=0, ag="SIMPLE"), dict(sut="tri", seed=0, ag="NONE"),
@@ -42,7 +43,11 @@ BREAKS = {
         "xfail_on_passing_test": ("passing tests are marked xfail(strict=True)", ["xfail-strict-passed"]),
         "no_exception_wrapping": ("writer never wraps raising statements / never marks xfail", ["fails:ValueError", "fails:TypeError", "fails:"]),
         "approx_wrong_value": ("float assertions rendered against value+1", ["fails:AssertionError:float-approx"]),
+        "filter_execution_times_out": ("environment, not code: every assertion-filtering execution times out (machine load) -> the filter "
+                                       "keeps all unverified assertions", ["fails:AssertionError:attr-eq-int"]),
         "fix_needs_pytest": ("proposed patch: import pytest whenever the rendered functions reference it", ["!fails:NameError:pytest-not-imported"]),
+        "fix_ruv,fix_needs_pytest,fix_minimizer": ("all three proposed patches (remove_unused_variables, needs_pytest, assertion-aware minimiser)",
+                                                   ["!fails:NameError:pytest-not-imported", "!fails:AssertionError:var-eq-int"]),
     },
     "C19": {
         "export_drops_last_assertion": ("exporter forgets the last assertion of a test function", ["lost:export:"]),
@@ -56,6 +61,8 @@ BREAKS = {
         "deserializer_keyword_is_a_read": ("call keywords count as variable reads: statements dropped", ["lost:assign:call", "lost:expr:call", "lost:function:"]),
         "deserializer_lifts_len_off_by_one": ("lifted len assertion stored with n+1", ["added:assert:len", "lost:assert:len"]),
         "fix_ruv": ("proposed patch of remove_unused_variables (keeps `accessible`)", ["!changed:xfail-marker->pytest.raises"]),
+        "fix_ruv,fix_deserializer": ("proposed patches of remove_unused_variables and of the seed parser (lambda parameters, assertion attached "
+                                     "to the preceding statement)", ["!changed:xfail-marker->pytest.raises", "!moved:assert:", "!lost:assign:lambda"]),
     },
 }
 
